@@ -107,13 +107,39 @@ theorem dot_session_count_insert (entry exit : RCmd) (typed : List RCmd) (reps n
   have hd : decide (n > 1) = true := by simpa using hn
   simp [recordSession, dotExecs, modeExecs, splitEntry_cons entry _ he, splitExit_snoc typed exit hx, sessionExecs, hd, hc]
 
+theorem belowEntry_of_change_kind (c : RCmd) (h : c.kind = .change) : belowEntry (some c) = none := by
+  simp only [belowEntry, h]
+  have : (VKind.change == VKind.lineBreak) = false := by decide
+  simp [this]
+
+theorem withCount_kind (c : RCmd) (n : Nat) : (c.withCount n).kind = c.kind := by
+  unfold RCmd.withCount RCmd.normalize
+  simp only
+  split <;> split <;> rfl
+
+theorem kind_of_isChangeEntry (c : RCmd) (h : isChangeEntry (some c) = true) : c.kind = .change := by
+  simp only [isChangeEntry, Bool.and_eq_true] at h
+  cases hk : c.kind <;> simp [hk] at h <;> first | rfl | (exact absurd h.1 (by decide))
+
 /-- With a count on a change session (cw, s, C, cc …): the count goes to the change's motion, the text
 is typed once per the session's own repetition. -/
 theorem dot_session_count_change (entry exit : RCmd) (typed : List RCmd) (reps n : Nat) (hn : n > 1)
     (he : opens entry = true) (hx : closes exit = true) (hc : isChangeEntry (some entry) = true) :
     dotExecs (recordSession entry typed exit reps) n = sessionExecs (entry.withCount n) typed exit reps := by
   have hd : decide (n > 1) = true := by simpa using hn
-  simp [recordSession, dotExecs, modeExecs, splitEntry_cons entry _ he, splitExit_snoc typed exit hx, sessionExecs, hd, hc]
+  have hk := kind_of_isChangeEntry entry hc
+  have hb1 := belowEntry_of_change_kind entry hk
+  have hb2 := belowEntry_of_change_kind (entry.withCount n) (by rw [withCount_kind]; exact hk)
+  simp [recordSession, dotExecs, modeExecs, splitEntry_cons entry _ he, splitExit_snoc typed exit hx, sessionExecs, hd, hc, hb1, hb2]
+
+/-- **A counted `o`/`O` session puts every repetition on a line of its own**: after the first, each is
+preceded by the command that opens a line below. -/
+theorem counted_open_line_session (entry exit : RCmd) (typed : List RCmd) (reps : Nat) (hk : entry.kind = .lineBreak) :
+    sessionExecs entry typed exit reps =
+      [entry] ++ typed ++ (List.replicate (max reps 1 - 1)
+        ({ entry with verb := some "InsertModeLineBreak(After)", vcount := 1 } :: typed)).flatten ++ [exit] := by
+  have : (VKind.lineBreak == VKind.lineBreak) = true := by decide
+  simp [sessionExecs, rounds, belowEntry, hk, this]
 
 /-- Before the fix the replay was "every recorded command, `reps` times", with no opening command:
 `A!<esc>` then `.` re-inserted `!` at the cursor instead of at the end of the line. -/
